@@ -162,7 +162,9 @@ Replay(c, s, evs, k, broken) ==
 (* "json" is the results file of a previous run; in reuse mode it is the      *)
 (* file being reused when present, otherwise the reused file lives elsewhere. *)
 (***************************************************************************)
-Items == {"input", "log", "region", "json", "file", "dir", "dot"}
+(* "stem" / "stemdir": a foreign file / populated directory whose name is the beginning of the log file's name
+   ("log" and "lo/" next to "log.txt"): foreign like any other, however the guard tells its own files apart *)
+Items == {"input", "log", "region", "json", "file", "dir", "dot", "stem", "stemdir"}
 DirConfigs ==
     {[state |-> "absent", contents |-> {}, mode |-> m, logcfg |-> lc] : m \in {"fresh", "reuse"}, lc \in BOOLEAN}
     \cup {[state |-> "file", contents |-> {}, mode |-> m, logcfg |-> lc] : m \in {"fresh", "reuse"}, lc \in BOOLEAN}
